@@ -1310,6 +1310,15 @@ _ical_push(struct ical_parser_s p[static 1U], const char *buf, size_t bsz)
 	return;
 }
 
+static nummapstr_t
+nmsdup(nummapstr_t x)
+{
+/* tasks free their strings, so hand out copies */
+	const char *s = nummapstr_str(x);
+
+	return s != NULL ? nummapstr_bang_str(strdup(s)) : x;
+}
+
 static struct ical_vevent_s*
 _ical_proc(struct ical_parser_s p[static 1U])
 {
@@ -1432,8 +1441,13 @@ _ical_proc(struct ical_parser_s p[static 1U])
 					/* FINALLY a vevent thing */
 					/* rinse our bucket */
 					memset(&p->ve, 0, sizeof(p->ve));
-					/* copy global task properties */
+					/* copy global task properties, owner,
+					 * user and group are filled in at the
+					 * end unless the event has its own */
 					p->ve.t = p->globve.t;
+					p->ve.t.owner = 0U;
+					p->ve.t.run_as.u = 0U;
+					p->ve.t.run_as.g = 0U;
 					/* copy global scale */
 					p->ve.cal = p->globve.cal;
 					/* and set state to vevent */
@@ -1499,7 +1513,7 @@ _ical_proc(struct ical_parser_s p[static 1U])
 			 * to other vevents as well */
 			if (!p->ve.t.owner) {
 				/* bang owner */
-				p->ve.t.owner = p->globve.t.owner;
+				p->ve.t.owner = nmsdup(p->globve.t.owner);
 			}
 			if (!p->ve.t.umsk) {
 				/* bang umask */
@@ -1510,8 +1524,12 @@ _ical_proc(struct ical_parser_s p[static 1U])
 				p->ve.t.max_simul = p->globve.t.max_simul;
 			}
 			if (!p->ve.t.run_as.u) {
-				/* bang run_as */
-				p->ve.t.run_as = p->globve.t.run_as;
+				/* bang run_as, the calendar has got user and
+				 * group only, and every task wants a copy */
+				p->ve.t.run_as.u = nmsdup(p->globve.t.run_as.u);
+			}
+			if (!p->ve.t.run_as.g) {
+				p->ve.t.run_as.g = nmsdup(p->globve.t.run_as.g);
 			}
 			/* copy global scale */
 			p->ve.cal = p->globve.cal;
